@@ -53,6 +53,20 @@ def job_nearest_points(j):
     return res
 
 
+def job_nearest_mixed(j):
+    # the same raw numbers rounded on both ladders, in both orders, within one process
+    res = []
+    for i, k in enumerate(j["points"]):       # k/1000
+        x = k / 1000
+        if i % 2 == 0:
+            a = utils.get_nearest_price(x); b = utils.get_nearest_price(x, utils.BETDAQ_CUTOFFS); a2 = utils.get_nearest_price(x)
+        else:
+            b = utils.get_nearest_price(x, utils.BETDAQ_CUTOFFS); a = utils.get_nearest_price(x); a2 = utils.get_nearest_price(x, utils.CUTOFFS)
+        b2 = utils.get_nearest_price(x, utils.BETDAQ_CUTOFFS)
+        res.append([k, cents(a), cents(b), cents(a2), cents(b2)])
+    return res
+
+
 def job_ticks(j):
     prices = {"classic": None, "betdaq": utils.BETDAQ_PRICES_FLOAT}[j["ladder"]]
     res = []
@@ -119,7 +133,7 @@ def job_finest(j):
     return {"ok": fp == list(range(101, 100000)) + [100000], "len": len(fp)}
 
 
-JOBS = {"nearest_grid": job_nearest_grid, "nearest_points": job_nearest_points, "ticks": job_ticks,
+JOBS = {"nearest_mixed": job_nearest_mixed, "nearest_grid": job_nearest_grid, "nearest_points": job_nearest_points, "ticks": job_ticks,
         "validate": job_validate, "finest": job_finest}
 
 if __name__ == "__main__":
